@@ -2,6 +2,7 @@ package sym
 
 import (
 	"fmt"
+	"os"
 	"go/types"
 
 	"golang.org/x/tools/go/ssa"
@@ -386,6 +387,9 @@ func (e *Engine) hookTick(st *State, o *Obj, where string, atomic bool) {
 		}
 	} else if e.hookSync || e.hookObj != o {
 		return
+	}
+	if os.Getenv("VERIF_HOOKTRACE") != "" {
+		fmt.Fprintln(os.Stderr, "hook tick", where, "atomic", atomic)
 	}
 	c := e.C
 	cv, ok := st.Heap[e.hookCnt].(Value)
